@@ -4,7 +4,8 @@
 //     kind: 0 default handler (404), 1 FilesystemHandler streaming a multi-buffer file, 2 QObjectHandler slot
 //           waiting for the whole body, 3 ProxyHandler (upstream = scripted server in the harness)
 //     cut: request bytes sent before the action; action: 0 client aborts (RST), 1 client closes gracefully,
-//          2 client waits for the complete response, 3 server object destroyed now, 4 client reads some response then aborts
+//          2 client waits for the complete response, 3 server object destroyed now, 4 client reads some response then aborts,
+//          5 / 6 whole request, then [surplus] more bytes (4th element), then reset / orderly close
 //   obs  ::= ( live_after fd_delta responses_seen )   live_after: per-connection QObjects still alive under the server
 #include <QCoreApplication>
 #include <QDir>
@@ -122,6 +123,18 @@ static Val run_life(const Val &c)
             cl->abort();
             break;
         case 3: delete server; server = nullptr; destroyed = true; break;
+        case 5: case 6: {
+            // the whole request, then more bytes than any buffer holds (the server has no use for them), then the client goes
+            // away (5: reset, 6: orderly): the server must still notice and let go
+            cl->write(reqBytes.mid(cut)); cl->flush(); pumpMs(15);
+            qint64 surplus = conn.size() > 3 ? conn.at(3).asInt() : 100000;
+            QByteArray junk(32768, 'j');
+            for (qint64 sent = 0; sent < surplus; sent += junk.size()) { cl->write(junk); cl->flush(); pumpMs(5); }
+            pumpMs(30);
+            if (action == 5) cl->abort();
+            else { cl->disconnectFromHost(); pumpTill([&]() { return cl->state() == QAbstractSocket::UnconnectedState; }, 500); }
+            break;
+        }
         default:
             cl->write(reqBytes.mid(cut)); cl->flush();
             pumpTill([&]() { return got.size() >= 1000 || cl->state() == QAbstractSocket::UnconnectedState; }, 1000);
